@@ -130,7 +130,7 @@ Section Top.
 
   Lemma next_cus s off : Inv F s -> frame_rel F s (FCUs off) (AFCUs off) -> next_ok s (FCUs off) (AFCUs off).
   Proof.
-    intros HI Hf. inversion Hf as [|? Hu| | | | | | |]. subst. unfold next_ok. cbn [frame_next aframe_next].
+    intros HI Hf. inversion Hf as [|? Hu| | | | | | | |]. subst. unfold next_ok. cbn [frame_next aframe_next].
     destruct (Z.ltb_spec off (f_info_size F)) as [Hlt|Hge].
     - destruct (Hu Hlt) as (ud & Hud). rewrite Hud.
       destruct (cus_iter_next_ok F WF fuel Hfu s off ud HI Hud) as (s1 & id & E1 & HI1 & X1 & Hat).
@@ -148,7 +148,7 @@ Section Top.
   Lemma next_sections s i n : Inv F s -> frame_rel F s (FSections i n) (AFSections i) ->
     next_ok s (FSections i n) (AFSections i).
   Proof.
-    intros HI Hf. inversion Hf as [| | | | | |? ? Hi Hn| |]. subst. unfold next_ok. cbn [frame_next aframe_next].
+    intros HI Hf. inversion Hf as [| | | | | | |? ? Hi Hn| |]. subst. unfold next_ok. cbn [frame_next aframe_next].
     destruct (wf_elf_facts F WFe fuel Hfd) as (_ & _ & Hnum & _).
     assert (En : forall s0, (match n with Some n0 => ret n0 | None => num_sections P end) s0 = (s0, Ok (f_shnum F))).
     { intros s0. destruct Hn as [->| ->]; [apply (num_sections_ok F WFe fuel Hfd)|reflexivity]. }
@@ -174,7 +174,7 @@ Section Top.
   Lemma next_symbols s i n : Inv F s -> frame_rel F s (FSymbols i n) (AFSymbols i) ->
     next_ok s (FSymbols i n) (AFSymbols i).
   Proof.
-    intros HI Hf. inversion Hf as [| | | | | | |? ? Hi Hst Hn|]. subst. unfold next_ok. cbn [frame_next aframe_next].
+    intros HI Hf. inversion Hf as [| | | | | | | |? ? Hi Hst Hn|]. subst. unfold next_ok. cbn [frame_next aframe_next].
     assert (En : match n with Some n0 => n0 | None => p_sym_count P end = f_sym_count F).
     { destruct Hn as [->| ->]; reflexivity. }
     destruct (in_table i (f_syms F)) eqn:Hin.
@@ -199,7 +199,7 @@ Section Top.
   Lemma next_tags s n fin : Inv F s -> frame_rel F s (FTags n fin) (AFTags n fin) ->
     next_ok s (FTags n fin) (AFTags n fin).
   Proof.
-    intros HI Hf. inversion Hf as [| | | | | | | |? ? Hn Hdy Hlt]. subst. unfold next_ok. cbn [frame_next aframe_next].
+    intros HI Hf. inversion Hf as [| | | | | | | | |? ? Hn Hdy Hlt]. subst. unfold next_ok. cbn [frame_next aframe_next].
     destruct fin.
     - exists s, (Ok None). split; [reflexivity|]. split; [exact HI|]. split; [apply ext_refl|reflexivity].
     - destruct (has_dyn_facts F WF fuel Hfuel Hdy) as (Hes & nt & Hct).
